@@ -129,16 +129,30 @@ def _solve_one(args):
             res['verdict'] = 'covered' if r2 == z3.sat else ('vacuous' if r2 == z3.unsat else 'undecided')
             res['ms'] = int((time.time() - t0) * 1000)
             return res
+        quantified = o.kind == 'check' and any(_has_quant(h) for h in o.hyps + [o.goal])
+        cvc5_said = None
+        if r == z3.unknown and quantified and use_cvc5:
+            # portfolio step 2 (quantified obligations): cvc5's instantiation strategies before z3's MBQI
+            txt = _smt2(o.hyps, z3.Not(o.goal))
+            cr, why = run_cvc5(txt, max(2.0, timeout_ms / 1000.0))
+            cvc5_said = cr
+            if cr == 'unsat':
+                r = z3.unsat
+                res['backend'] = 'cvc5'
+            else:
+                res['reason'] = 'cvc5: %s' % (why or cr)
         if r == z3.unknown:
             s = z3.Solver()
-            s.set('timeout', timeout_ms)
+            s.set('timeout', timeout_ms if not quantified else max(2000, timeout_ms // 3))
             for h in o.hyps:
                 s.add(h)
             if o.kind == 'check':
                 s.add(z3.Not(o.goal))
             r = s.check()
-        if r == z3.unknown and use_cvc5 and o.kind == 'check':
-            txt = _smt2(o.hyps, z3.Not(o.goal) if o.kind == 'check' else None)
+            if r == z3.unknown:
+                res['reason'] = ('z3: %s; ' % s.reason_unknown()) + res['reason']
+        if r == z3.unknown and use_cvc5 and o.kind == 'check' and cvc5_said is None:
+            txt = _smt2(o.hyps, z3.Not(o.goal))
             cr, why = run_cvc5(txt, max(2.0, timeout_ms / 1000.0))
             res['backend'] = 'cvc5'
             if cr == 'unsat':
@@ -147,6 +161,8 @@ def _solve_one(args):
                 r = 'cvc5-sat'
             else:
                 res['reason'] = 'z3: %s; cvc5: %s' % (s.reason_unknown(), why)
+        if r == z3.unknown and cvc5_said == 'sat':
+            r = 'cvc5-sat'
         if o.kind == 'check':
             if r == z3.unsat:
                 res['verdict'] = 'discharged'
@@ -212,7 +228,7 @@ def discharge(obligations, timeout_ms=10000, workers=None, use_cvc5=True):
     _OBS = obligations
     workers = workers or min(14, max(1, (os.cpu_count() or 2) - 2))
     jobs = [(i, timeout_ms, use_cvc5) for i in range(len(obligations))]
-    hard_s = 3.0 * timeout_ms / 1000.0 + 20.0
+    hard_s = 2.2 * timeout_ms / 1000.0 + 20.0
     t0 = time.time()
     ctx = multiprocessing.get_context('fork')
     pending = list(reversed(jobs))
